@@ -1,5 +1,5 @@
 """save / load fidelity kernels (C12)."""
-from vxlib import Inst, CORE_TUS, FMT_STUBS, CTX_STUBS, CONTAINER_STUBS, SCALAR_STUBS
+from vxlib import Inst, CORE_TUS, FMT_STUBS, CTX_STUBS, CONTAINER_STUBS, SCALAR_STUBS, EMPTY_DECL_UNWIND
 OPS = [("add", "OpADDExpression", "OP_ADD"), ("sub", "OpSUBExpression", "OP_SUB"), ("mul", "OpMULExpression", "OP_MUL"), ("div", "OpDIVExpression", "OP_DIV"),
        ("mod", "OpMODExpression", "OP_MOD"), ("exp", "OpEXPExpression", "OP_EXP"), ("and", "OpANDExpression", "OP_AND"), ("ior", "OpIORExpression", "OP_IOR"),
        ("xor", "OpXORExpression", "OP_XOR"), ("pop", "OpPOPExpression", "OP_POP"), ("pus", "OpPUSExpression", "OP_PUS"), ("eq", "OpEQExpression", "OP_EQ"),
@@ -28,4 +28,13 @@ def instances():
                         defs=["VX_SHAPE=%d" % k], stubs=FMT_STUBS + ["_ZN4bloc5Value15readableNumericB5cxx11ERd"], unwind=18, timeout=300,
                         bounds="NumericExpression::unparse with the %%.16g rendering cut: every text of shape %s (D digit, S sign, X exponent digit) that %%.16g can print, leading digit 1..4" % sh,
                         inputs="digits, exponent sign"))
+    HT = CORE_TUS + ["blocc/statement_for.cpp", "blocc/statement_forall.cpp", "blocc/expression_variable.cpp"]
+    for fa in (0, 1):
+        for d in (0, 1, 2):
+            for st in ((0, 1) if not fa else (0,)):
+                out.append(Inst(id="c12.header.%s.d%d%s" % ("forall" if fa else "for", d, ".step" if st else ""), props=["C12", "C01"], harness="h_unparse.cpp", entry="c12_header", tus=HT,
+                                defs=["VX_FORALL=%d" % fa, "VX_DIR=%d" % d, "VX_STEP=%d" % st], stubs=FMT_STUBS + CTX_STUBS + CONTAINER_STUBS, unwind=42, unwindset=EMPTY_DECL_UNWIND, timeout=300, model_unwind=50,
+                                tier="quick" if (fa, d, st) in ((0, 1, 0), (0, 2, 1), (0, 0, 0), (1, 2, 0)) else "thorough",
+                                bounds="%s header with direction %s%s; names are one character; empty body" % ("forall" if fa else "for", ("none", "asc", "desc")[d], ", with a step" if st else ""),
+                                inputs="none (the written text is compared with the grammar; the check is a reachability + equality query)"))
     return out
